@@ -63,7 +63,7 @@ func c02Strings(alpha []string, L int) []string {
 // the accept key only, so it has to hold whatever optional feature watches the typing (suggestions,
 // automatic completion, bracket matching, highlighting, a mode indicator), on a terminal narrower
 // than the text, and in a later call on a Shell whose earlier call ended in any state.
-var c02Contexts = []string{"plain", "autosuggest", "autocomplete", "decorations", "narrow", "after-accepted-call", "after-interrupted-call", "after-vi-command-call", "after-pending-states"}
+var c02Contexts = []string{"plain", "autosuggest", "autocomplete", "decorations", "narrow", "after-accepted-call", "after-interrupted-call", "after-vi-command-call", "after-pending-states", "after-completed-call"}
 
 func c02Context(cfg *harness.Config, ctx, mode string) {
 	switch ctx {
@@ -96,6 +96,11 @@ func c02Context(cfg *harness.Config, ctx, mode string) {
 		} else {
 			cfg.PriorCalls = [][]harness.Answer{Keys("q", "w", "\x1b", "0", "i", "\r")}
 		}
+	case "after-completed-call":
+		// the earlier call ended right after a completion whose candidate carries a suffix matcher
+		// (a directory-like value: the trailing slash is removed when a blank or a slash is typed next)
+		cfg.Comps = &harness.CompSpec{ByWord: true, NoSpace: "/", Items: []harness.Comp{{Value: "dir/"}}}
+		cfg.PriorCalls = [][]harness.Answer{Keys("cd di", "\t", "\r")}
 	case "after-pending-states":
 		// the earlier call ends, by interrupt, with a mark set, a kill / yank made, a numeric argument
 		// and a keyboard macro being recorded (vi: back in insert mode)
@@ -277,7 +282,18 @@ func runC02(c *Ctx) {
 			texts = append(texts, string(r), "x"+string(r)+"y")
 		}
 	}
-	c.Rule = fmt.Sprintf("all strings of length <= %d over %d runes %q x {emacs,vi-insert} x 3 meta settings x {one chunk, one rune per read, one BYTE per read (non-ASCII)} x %d contexts %q (optional features watching the typing, a terminal narrower than the text, a later call on a Shell whose earlier call ended accepted / interrupted / in vi command mode / with pending states) + Enter; oracle applied to ASCII-only strings under every setting and to non-ASCII strings under convert-meta off; non-trivial = distinct non-empty typed string for which the oracle applied", L, len(c02Alphabet), c02Alphabet, len(c02Contexts), c02Contexts)
+	// longer texts: blanks, slashes and a shell comment at many offsets, lengths around the points where
+	// a buffer of runes is reallocated (32, 64), so that a line grows through them one keypress at a time
+	long := []string{"make test   # run the whole suite again", "git log --oneline", "abcdefg/hij", "a b c d e f g", "échø çà üñï/x y", "x #y"}
+	for n := 30; n <= 44; n++ {
+		long = append(long, "ab #"+strings.Repeat("c", n-4))
+	}
+	for _, n := range []int{62, 63, 64, 65, 66, 70} {
+		long = append(long, "# "+strings.Repeat("d", n-2))
+	}
+	nShort := len(texts)
+	texts = append(texts, long...)
+	c.Rule = fmt.Sprintf("all strings of length <= %d over %d runes %q x {emacs,vi-insert} x 3 meta settings x {one chunk, one rune per read, one BYTE per read (non-ASCII)} x %d contexts %q (optional features watching the typing, a terminal narrower than the text, a later call on a Shell whose earlier call ended accepted / interrupted / in vi command mode / with pending states) + %d longer texts (blanks, slashes, a shell comment, lengths 30-44 and 62-70) + Enter; oracle applied to ASCII-only strings under every setting and to non-ASCII strings under convert-meta off; non-trivial = distinct non-empty typed string for which the oracle applied", L, len(c02Alphabet), c02Alphabet, len(c02Contexts), c02Contexts, len(long))
 	c.Bounds = map[string]any{"max_len": L, "alphabet": c02Alphabet, "modes": []string{"emacs", "vi-insert"}, "meta": []string{"default", "convert-meta-off", "utf8-usual"}, "delivery": []string{"chunk", "rune", "byte"}, "contexts": c02Contexts}
 	c.Assumptions = []string{"non-ASCII oracle scoped to convert-meta off as the statement says"}
 
@@ -287,7 +303,7 @@ func runC02(c *Ctx) {
 	}
 	var jobs []harness.Job
 	var metas []meta
-	for _, text := range texts {
+	for ti, text := range texts {
 		for _, mode := range []string{"emacs", "vi-insert"} {
 			for _, ms := range c02Meta {
 				if !isASCII(text) && ms.name == "default" {
@@ -307,6 +323,9 @@ func runC02(c *Ctx) {
 						continue // same as "rune"
 					}
 					for _, ctx := range c02Contexts {
+						if ti >= nShort && (d == "byte" || ms.name == "convert-meta-off" || (c.Quick() && ms.name == "default" && ctx != "plain" && ctx != "decorations" && ctx != "after-completed-call")) {
+							continue // the longer texts: whole-chunk and per-rune deliveries
+						}
 						if ctx != "plain" && (d == "byte" || ms.name == "convert-meta-off") {
 							continue // contexts: whole-chunk and per-rune deliveries under the default and the usual UTF-8 settings
 						}
